@@ -182,6 +182,8 @@ class C18(AstKindProp):
                 continue
             first = json.loads(outs[0])
             self.fill_probes[w] = (probes, first["fill"], None)
+            self.unwrap_probes = getattr(self, "unwrap_probes", {})
+            self.unwrap_probes[w] = first.get("unwrap", [])
             for i, o in zip(idxs, outs[1:]):
                 self.cases[i]["_res"] = json.loads(o)
         self._fill_done = False
@@ -214,6 +216,10 @@ class C18(AstKindProp):
                 continue
             for t, o in zip(probes, outs):
                 res.append(("fill", {"op": "fill", "text": t, "width": w or 100}, o))
+        for w, uns in getattr(self, "unwrap_probes", {}).items():
+            for u in uns:
+                if "ok" in u and not u["ok"].startswith(("Optional", "(Optional)")):
+                    res.append(("unwrap", {"op": "unwrap", "text": u["text"]}, {"ok": u["ok"]}))
         return res
 
     def canon_model(self, layer, op, ans):
